@@ -291,6 +291,9 @@ def defs_to_lambdas(fn: ast.AST) -> None:
                 seq[i] = ast.copy_location(ast.Assign(targets=[ast.Name(id=st.name, ctx=ast.Store())], value=lam), st)
 
 
+_BOOL_METHODS = {'startswith', 'endswith', 'isdigit', 'isalpha', 'isalnum', 'isidentifier', 'isspace', 'islower', 'isupper', 'issubset', 'issuperset', 'isdisjoint', 'is_dir', 'is_file', 'exists', 'is_absolute', 'is_alive', 'is_set', 'fnmatch', 'fnmatchcase', 'is_zipfile'}
+
+
 def _is_bool(t: ast.AST) -> bool:
     """Is the value of this expression certainly a ``bool``?"""
     if isinstance(t, ast.Compare):
@@ -299,6 +302,8 @@ def _is_bool(t: ast.AST) -> bool:
         return True
     if isinstance(t, ast.Call) and isinstance(t.func, ast.Name) and t.func.id in ('isinstance', 'issubclass', 'callable', 'hasattr', 'bool', 'all', 'any'):
         return True
+    if isinstance(t, ast.Call) and isinstance(t.func, ast.Attribute) and t.func.attr in _BOOL_METHODS:
+        return True  # names that mean a yes/no answer throughout the standard library (str, set, pathlib, threading, fnmatch)
     if isinstance(t, ast.BoolOp):
         return all(_is_bool(v) for v in t.values)
     if isinstance(t, ast.Constant) and isinstance(t.value, bool):
@@ -812,7 +817,7 @@ def inline_temporaries(fn: ast.AST, only: typing.Optional[set] = None, sigs: typ
     for n in ast.walk(fn):
         for c in ast.iter_child_nodes(n):
             parents[id(c)] = n
-    for seq in list(_blocks(fn)):
+    for seq in list(_code_blocks(fn)):
         for i, st in enumerate(seq):
             if not (isinstance(st, ast.Assign) and len(st.targets) == 1 and isinstance(st.targets[0], ast.Name)):
                 continue
@@ -1165,6 +1170,15 @@ def inline_nested_helpers(fn: ast.AST) -> None:
             if isinstance(st, ast.FunctionDef) and st is not fn:
                 defs[st.name] = st
     if defs:
+        # ``return t and h(..)`` with a yes/no ``t`` and a multi-statement local helper h: ``if t: return h(..) else: return False``
+        for seq in list(_code_blocks(fn)):
+            for k, st in enumerate(seq):
+                if isinstance(st, ast.Return) and isinstance(st.value, ast.BoolOp) and isinstance(st.value.op, ast.And) and len(st.value.values) == 2:
+                    t, c = st.value.values
+                    if _is_bool(t) and isinstance(c, ast.Call) and isinstance(c.func, ast.Name) and c.func.id in defs and len([x for x in defs[c.func.id].body if not _is_noop(x)]) > 1:
+                        seq[k] = ast.copy_location(ast.If(test=t, body=[ast.Return(value=c)], orelse=[ast.Return(value=ast.Constant(value=False))]), st)
+                        ast.fix_missing_locations(seq[k])
+        core.set_parents(fn)
         core.inline_helpers(fn, defs, lambda q, n: True)
 
 
@@ -1270,6 +1284,13 @@ def unfold_generator_loops(fn: ast.AST) -> None:
         new = inner[0]
         loop.target, loop.iter, loop.body = new.target, new.iter, new.body
         ast.fix_missing_locations(loop)
+
+
+def absorb_into_try_else(fn: ast.AST) -> None:
+    from . import core
+
+    for seq in list(_blocks(fn)):
+        core._absorb_into_try_else(seq)  # pylint: disable=protected-access
 
 
 def sink_returns(fn: ast.AST) -> None:
@@ -1915,6 +1936,7 @@ def normal_form(fn: ast.AST, sigs: typing.Optional[SignatureIndex] = None, owner
         unfold_for_else(node)
         unfold_generator_loops(node)
         sink_returns(node)
+        absorb_into_try_else(node)
         flatten_conditionals(node)
         drop_tail_continues(node)
         split_rebound_parameters(node)
